@@ -127,7 +127,7 @@ wire_impl!(RepairRequest);
 wire_impl!(RepairResponse);
 wire_impl!(Transaction);
 
-pub fn c10_transport() -> WorldOutcome {
+pub fn c10_transport(prop: &str) -> WorldOutcome {
     let udp = kernel::choose(G, 2) == 1;
     let iface = kernel::choose(G, 5);
     let n = 4 + kernel::choose(G, 44) as usize;
@@ -151,11 +151,11 @@ pub fn c10_transport() -> WorldOutcome {
     }
     kernel::event_nt(&format!("c10-transport udp={udp} iface={iface} datagrams={}", script.len()));
     let outcome = match iface {
-        0 => run::<ConsensusMessage>(udp, &script),
-        1 => run::<Shred>(udp, &script),
-        2 => run::<RepairRequest>(udp, &script),
-        3 => run::<RepairResponse>(udp, &script),
-        _ => run::<Transaction>(udp, &script),
+        0 => run::<ConsensusMessage>(prop, udp, &script),
+        1 => run::<Shred>(prop, udp, &script),
+        2 => run::<RepairRequest>(prop, udp, &script),
+        3 => run::<RepairResponse>(prop, udp, &script),
+        _ => run::<Transaction>(prop, udp, &script),
     };
     let classes: BTreeMap<&str, usize> = script.iter().fold(BTreeMap::new(), |mut m, (_, c)| {
         *m.entry(*c).or_insert(0) += 1;
@@ -165,7 +165,7 @@ pub fn c10_transport() -> WorldOutcome {
     WorldOutcome { nontrivial: outcome != "skipped", sample: json!({"transport": if udp { "UdpNetwork (loopback)" } else { "SimulatedNetwork" }, "interface": iface, "datagrams": script.len(), "classes": classes, "outcome": outcome}), virt_ms: 0 }
 }
 
-fn run<R: Wire>(udp: bool, script: &[(Vec<u8>, &'static str)]) -> &'static str
+fn run<R: Wire>(prop: &str, udp: bool, script: &[(Vec<u8>, &'static str)]) -> &'static str
 where
     R: for<'de> wincode::SchemaRead<'de, alpenglow::network::NetworkMessageConfig, Dst = R> + wincode::SchemaWrite<wincode::config::DefaultConfig, Src = R>,
 {
@@ -250,7 +250,7 @@ where
                 let p = ps.last();
                 if p.is_some_and(kernel::panic_in_repo) {
                     let p = p.expect("record");
-                    kernel::violation("C10", format!("transport-panic:{transport}"), format!("{transport}::receive panicked on a hostile datagram script: {} @ {}", p.message, p.location));
+                    kernel::violation(prop, format!("transport-panic:{transport}"), format!("{transport}::receive panicked on a hostile datagram script: {} @ {}", p.message, p.location));
                     return "panic";
                 }
                 panic!("netrecv: panic outside the repository: {:?}", p.map(|p| (&p.message, &p.location)));
@@ -262,7 +262,7 @@ where
                 return "skipped";
             }
             Some(e) => {
-                kernel::violation("C10", format!("transport-receive-error:{transport}"), format!("{transport}::receive returned an error ({e}) after hostile datagrams instead of dropping them and continuing"));
+                kernel::violation(prop, format!("transport-receive-error:{transport}"), format!("{transport}::receive returned an error ({e}) after hostile datagrams instead of dropping them and continuing"));
                 return "error";
             }
             None => {}
@@ -273,7 +273,7 @@ where
             if let Some(i) = pool.iter().position(|e| e == g) {
                 pool.remove(i);
             } else {
-                kernel::violation("C10", format!("transport-delivered-unexpected:{transport}"), format!("{transport}::receive handed out a message that is not one of the decodable datagrams sent ({} bytes re-encoded)", g.len()));
+                kernel::violation(prop, format!("transport-delivered-unexpected:{transport}"), format!("{transport}::receive handed out a message that is not one of the decodable datagrams sent ({} bytes re-encoded)", g.len()));
                 return "unexpected";
             }
         }
@@ -289,7 +289,7 @@ where
     }
     if verdict == "missing" {
         kernel::violation(
-            "C10",
+            prop,
             format!("transport-stopped-serving:{transport}"),
             format!("{transport}::receive did not hand out {best_missing} of {} decodable datagrams that were interleaved with hostile ones (in each of {rounds} repetitions)", expected.len()),
         );
